@@ -693,7 +693,10 @@ impl Xot {
                         span_info.extend_text_span(node_id.into(), text.into());
                     }
                     Cdata { text, span: _ } => {
-                        let node_id = builder.cdata_text(text.as_str(), self)?;
+                        // line ends are normalized in CDATA sections too
+                        // https://www.w3.org/TR/xml/#sec-line-ends
+                        let content = normalize_line_ends(text.as_str());
+                        let node_id = builder.cdata_text(&content, self)?;
                         span_info.extend_text_span(node_id.into(), text.into());
                     }
                     ElementStart {
@@ -849,6 +852,14 @@ impl Xot {
     pub fn parse_bytes(&mut self, bytes: &[u8]) -> Result<Node, ParseError> {
         let xml = decode(bytes, None);
         self.parse(&xml)
+    }
+}
+
+fn normalize_line_ends(value: &str) -> std::borrow::Cow<str> {
+    if value.contains('\r') {
+        value.replace("\r\n", "\n").replace('\r', "\n").into()
+    } else {
+        value.into()
     }
 }
 
